@@ -9,7 +9,7 @@
    Part 7  refutations of the unrestricted statement, non-vacuity *)
 From Coq Require Import ZArith Bool List String Floats Lia Permutation.
 Require Import X.Base.Num X.Base.NumProofs X.Base.Value X.Syn.Ast X.gen.GenHelpers X.gen.GenWeights X.Bridge.BrC14.
-Require Import X.Sem.Prim X.Sem.Sem X.Ty.Types X.Ty.TypesTable X.Ty.TyProofs X.Ty.Checker X.Ty.CheckProofs X.Ty.Sound.
+Require Import X.Sem.Prim X.Sem.Sem X.Sem.MatchesFacts X.Ty.Types X.Ty.TypesTable X.Ty.TyProofs X.Ty.Checker X.Ty.CheckProofs X.Ty.Sound.
 Import ListNotations.
 Open Scope string_scope.
 
@@ -743,18 +743,12 @@ Proof. reflexivity. Qed.
 
 Lemma sv_matches ctx a re l r s :
   ev ctx (EMatches a re l r) s =
-  match re with
-  | Some p =>
-      rbind (ev ctx l s) (fun va s1 =>
-      lift (aloc a) s1 (as_str va) (fun x =>
-      match re_match fe p x with Some b => Done (VBool b) s1 | None => Stop ERegexp (aloc a) s1 end))
-  | None =>
-      rbind (ev ctx l s) (fun va s1 =>
-      rbind (ev ctx r s1) (fun vb s2 =>
-      lift (aloc a) s2 (as_str vb) (fun p => lift (aloc a) s2 (as_str va) (fun x =>
-      match re_match fe p x with Some b => Done (VBool b) s2 | None => Stop ERegexp (aloc a) s2 end))))
-  end.
-Proof. destruct re; reflexivity. Qed.
+  (* the pre-compiled pattern is only a shortcut for the value of the right operand (Sem/MatchesFacts.v) *)
+  rbind (ev ctx l s) (fun va s1 =>
+  rbind (ev ctx r s1) (fun vb s2 =>
+  lift (aloc a) s2 (as_str vb) (fun p => lift (aloc a) s2 (as_str va) (fun x =>
+  match re_match fe p x with Some b => Done (VBool b) s2 | None => Stop ERegexp (aloc a) s2 end)))).
+Proof. exact (eval_matches_dyn _ _ _ ctx a re l r s). Qed.
 
 Lemma sv_property ctx a x name ns s :
   ev ctx (EProperty a x name ns) s =
@@ -1202,9 +1196,7 @@ Proof.
   apply andb_prop in Hs. destruct Hs as [Hsl Hsr]. apply s_str_inv in H1, H2. subst tl tr.
   cbn in Eru. inversion Eru; subst t.
   pose proof (fun s => IHl _ _ _ El Hsl ctx Hc s) as Rl. pose proof (fun s => IHr _ _ _ Er Hsr ctx Hc s) as Rr.
-  cbn [settle set_ann]. rewrite sv_matches. destruct re as [p|].
-  - eapply res_bind; [apply Rl|]. intros va s1 Ha. destruct (inv_str _ _ _ _ Ha) as [x ->]. cbn [as_str lift].
-    destruct (re_match fe p x); [apply ty_bool|reflexivity].
+  cbn [settle set_ann]. rewrite sv_matches.
   - eapply res_bind; [apply Rl|]. intros va s1 Ha. eapply res_bind; [apply Rr|]. intros vb s2 Hb.
     destruct (inv_str _ _ _ _ Ha) as [x ->]. destruct (inv_str _ _ _ _ Hb) as [p ->]. cbn [as_str lift].
     destruct (re_match fe p x); [apply ty_bool|reflexivity].
